@@ -14,7 +14,7 @@ Theorem C13_sp_strict : forall r tbl acts s tr a s' o f g,
   sp_run r tbl acts = Some (s, tr) -> sp_act r tbl s a = Some (s', o) ->
   In (OVisit f true) o -> higher tbl f g ->
   sq_held (mstores s' g) = [] /\ items (mstores s g) = [] /\ (exists rem, mpc s' = PGet f rem) /\ mnow s' = mnow s.
-Proof. intros r tbl acts s tr a s' o f g R ND H. apply sp_strict_commit; auto. exists acts, tr. exact H. Qed.
+Proof. exact sp_strict_run. Qed.
 Print Assumptions C13_sp_strict.
 
 (* When the transmission timer of the committed packet p starts (two kernel steps later), every packet a flow of
@@ -23,13 +23,13 @@ Theorem C13_sp_strict_at_start : forall r tbl acts s tr s' o p g,
   0 < r -> NoDup (map fst tbl) ->
   sp_run r tbl acts = Some (s, tr) -> sp_act r tbl s SChildInit = Some (s', o) ->
   In (OStart p) o -> higher tbl (flow p) g -> Forall (fun x => fst x = mnow s) (sq_held (mstores s g)).
-Proof. intros r tbl acts s tr s' o p g R ND H. apply sp_strict_at_start; auto. exists acts, tr. exact H. Qed.
+Proof. exact sp_strict_at_start_run. Qed.
 Print Assumptions C13_sp_strict_at_start.
 
 (* Between the commit and the start of the timer the clock cannot move. *)
 Theorem C13_sp_commit_same_instant : forall r tbl acts s tr f t,
   0 < r -> sp_run r tbl acts = Some (s, tr) -> committed s f -> sp_act r tbl s (SAdvance t) = None.
-Proof. intros r tbl acts s tr f t R H. apply sp_commit_same_instant; auto. exists acts, tr. exact H. Qed.
+Proof. exact sp_commit_same_instant_run. Qed.
 Print Assumptions C13_sp_commit_same_instant.
 
 (* Non-preemptive: along every execution transmissions start only when none is in progress, each ends exactly
